@@ -1,5 +1,5 @@
 CONSTANTS Threads = {1, 2}  MaxMods = 3
 SPECIFICATION Spec
 VIEW view
-INVARIANT SerialCovered SerialLogOrder SerialReplay
+INVARIANT SerialCovered SerialLogOrder SerialReplay AckAfterLogged BatchLogged
 CHECK_DEADLOCK FALSE
